@@ -21,14 +21,14 @@ OpOK(e) ==
   LET uriV == ObservedUri(e.req.groups)
       exp  == Build(e.op, e.calls, e.jobid, uriV) IN
   /\ e.req.hdr.ver = exp.ver /\ e.req.hdr.code = exp.code /\ Positive(e.req.hdr.id)
-  /\ NormMsg(e.req.groups) = NormMsg(exp.groups)
+  /\ ReqNorm(e.req.groups) = ReqNorm(exp.groups)
   /\ (HasUri(e.op) => (uriV.k = "Uri" /\ IsCanonOf(e.puri, e.target)))
   /\ e.payload_ok
 RawOK(e) ==
   LET uriV == ObservedUri(e.req.groups) IN
   /\ e.req.hdr.ver = e.ver /\ e.req.hdr.code = e.code
   /\ (IF e.kind = "response" THEN e.req.hdr.id = e.id ELSE Positive(e.req.hdr.id))
-  /\ NormMsg(e.req.groups) = NormMsg(Base(e.hasuri, uriV))
+  /\ ReqNorm(e.req.groups) = ReqNorm(Base(e.hasuri, uriV))
   /\ (e.hasuri => (uriV.k = "Uri" /\ IsCanonOf(e.puri, e.target)))
   /\ e.payload_ok
 OrderOK(e) == HeaderOrderOK(e.first, e.names)
